@@ -474,10 +474,15 @@ Definition cum_match (want : list (list out)) (index columns : list val)
 Definition check_S (f : rfunc) (axis : Z) (skipna : bool) (ddof : Z) (r : nat) (bs : list vblk)
            (index columns : list val) (obs : res (list val * list val)) : bool :=
   reduce_match (S_frame f axis skipna ddof r (frame_cells bs)) (S_labels axis index columns) obs.
-Definition check_M (tbl : rfunc -> flags) (f : rfunc) (axis : Z) (skipna : bool) (ddof : Z) (r : nat) (bs : list vblk)
-           (index columns : list val) (obs : res (list val * list val)) : bool :=
+(* the ddof the code really passes on: container.py binds it with partial(np.var, ddof=ddof) separately for the
+   skipna and the non-skipna function; [bound f skipna] (regenerated from the source) says whether it is bound *)
+Definition eff_ddof (bound : rfunc -> bool -> bool) (f : rfunc) (skipna : bool) (ddof : Z) : Z :=
+  if bound f skipna then ddof else 0.
+Definition check_M (tbl : rfunc -> flags) (bound : rfunc -> bool -> bool) (f : rfunc) (axis : Z) (skipna : bool) (ddof : Z)
+           (r : nat) (bs : list vblk) (index columns : list val) (obs : res (list val * list val)) : bool :=
   negb (m_faithful tbl f axis skipna r bs) ||
-  (wf_frame r bs && reduce_match (M_frame tbl f axis skipna ddof r bs) (S_labels axis index columns) obs).
+  (wf_frame r bs &&
+   reduce_match (M_frame tbl f axis skipna (eff_ddof bound f skipna ddof) r bs) (S_labels axis index columns) obs).
 
 Definition check_arg_S (ismin isloc : bool) (axis : Z) (skipna : bool) (r : nat) (bs : list vblk)
            (index columns : list val) (obs : res (list val * list val)) : bool :=
